@@ -62,6 +62,15 @@ def enc(v):
         return [8, [[enc(k), enc(x)] for k, x in v.items()]]
     if isinstance(v, Opaque):
         return [9, v.n]
+    # other Mapping / Set / Sequence types (MappingProxyType, ChainMap, UserDict, custom classes): what they are to the
+    # merge is decided by collections.abc, not by the concrete class
+    import collections.abc as _abc
+    if isinstance(v, _abc.Mapping):
+        return [8, [[enc(k), enc(v[k])] for k in v]]
+    if isinstance(v, _abc.Set):
+        return [7, sorted((enc(x) for x in v), key=repr)]
+    if isinstance(v, _abc.Sequence):
+        return [5, [enc(x) for x in v]]
     return [9, 999]
 
 
